@@ -70,6 +70,42 @@ CHECKS["C06"] = dict(
          "Kernel contracts are proved at small shapes and used at unbounded sizes (stated gap). Plans beyond the block bound are cut and counted.",
     design="DESIGN.md section 4 (C06)")
 
+CHECKS["C07"] = dict(
+    engine="E2 pysym on the real file-to-file transforms + real FileWriter/prep_outfile over a symbolic write log, kernels as contracts established by E1 nbsym; z3",
+    technique="dynamic symbolic execution of the real invert_freq/apply_channel_mask/extract_*/downsample/subband/remove_zerodm bytecode over symbolic input files and a symbolic append log; kernel contracts proved from numba's typed IR; z3 (LIA+LRA+UF) decides; models replayed on real files",
+    text="Each transform runs on the real read_plan/FileReader and the real FileWriter.cwrite/prep_outfile; the output is the recorded sequence of "
+         "writes. N, gulp, start, nsamps, delays, mask and mask value are unbounded/arbitrary, the block count is bounded, tfactor/ffactor/nsub/"
+         "channel selections are small concrete values. Per path and per output channel z3 proves: the data section holds exactly the defined "
+         "number of samples at the declared item width (packed at sub-byte depths in the default bit order), and every output sample equals the "
+         "whole-array definition over the uninterpreted sample model (permutation, constant fill, block mean then store, sums of delay-shifted "
+         "channels, zero-DM formula); kernel preconditions hold. Kernel contracts are established from the typed IR with the concrete "
+         "truncating store.",
+    note="Exact arithmetic; the float->integer store is an uninterpreted function in the streaming harness (same function on both sides) and the "
+         "concrete truncation in the contract proofs. Zero-DM: bandpass handed to the kernel from a small concrete alphabet. requantize is C04.",
+    design="DESIGN.md section 4 (C07)")
+
+CHECKS["C08"] = dict(
+    engine="E2 pysym (header update dictionaries of every transform/container under the same path conditions) + z3 FP theory for the frequency->channel expression",
+    technique="symbolic execution of the real header-update code paths (new_header/prep_outfile arguments) with symbolic start/nsamps/channel; the real float expression of read_block(fch1=...) executed over IEEE-754 doubles in z3's FP theory with a symbolic channel number; models replayed",
+    text="Piggy-backs on the C06/C07 harnesses: every header handed to a container or written to a file is compared, under the path condition, "
+         "with the data actually produced - nsamples/nchans/nbits, tsamp factor, tstart = mjd_after_nsamps(start) for start>0, DM, and channel "
+         "labels (exact arithmetic on the double values, several channelisations incl. -0.1 and -1/3 MHz) against the centres of the input "
+         "channels copied/averaged. read_block(fch1=label_k): the real bytecode runs with an IEEE-754 double label fch1_0+k*foff, k a symbolic "
+         "16-bit integer <= 4096; z3 proves in the FP theory that the index expression returns k, then the slice and header are decided over "
+         "the integers.",
+    note="mjd_after_nsamps is uninterpreted (astropy Time accuracy outside the claim); channelisations from a stated list; float32 label arrays outside.",
+    design="DESIGN.md section 4 (C08)")
+
+CHECKS["C20"] = dict(
+    engine="E2 pysym: write traces of the real streaming writers + real parse_header/read_block on a file of symbolic length; z3",
+    technique="symbolic execution of the real writer call sequences (header first, append-only whole-sample blocks) and of the real parse_header length arithmetic + read_block on a truncated file of symbolic length; z3 decides; models replayed by wrapping the real writes",
+    text="For every streaming writer the recorded sequence of raw writes is checked on every path: the first write is the complete encoded header, "
+         "all later writes append whole output samples in time order, no seek or rewrite; the writer object is the unbuffered io.FileIO. For every "
+         "truncation length L >= header length (unbounded integer) the real parse_header arithmetic infers k = floor(8(L-hdr)/nbits/nchans) and the "
+         "real read_block(0,k) on the surviving file returns exactly the first k samples.",
+    note="A crash inside a single OS write and file-system durability are outside the claim. Header content is C05.",
+    design="DESIGN.md section 4 (C20)")
+
 NOT_APPLICABLE = {}
 
 PENDING = "check not built yet in this round (see DESIGN.md section 8 for the build order); no claim is made"
